@@ -126,3 +126,71 @@ func init() {
 	}
 	externals["(reflect.hasher).BlockSize"] = func(fr *frame, args []value) value { return 64 }
 }
+
+// bytealgIndex is bytealg.Index / IndexString over possibly symbolic bytes:
+// the first position at which sep occurs, decided by forking left to right.
+func (i *interpreter) bytealgIndex(s, sep []value) value {
+	n := len(sep)
+	if n == 0 {
+		return 0
+	}
+	for k := 0; k+n <= len(s); k++ {
+		if i.decide(i.bytesEq(s[k:k+n], sep)) {
+			return k
+		}
+	}
+	return -1
+}
+
+func init() {
+	stubs["internal/bytealg.Index"] = func(fr *frame, args []value) value {
+		return fr.i.bytealgIndex(args[0].([]value), args[1].([]value))
+	}
+	stubs["internal/bytealg.IndexString"] = func(fr *frame, args []value) value {
+		return fr.i.bytealgIndex(strBytes(args[0]), strBytes(args[1]))
+	}
+	stubs["internal/bytealg.Compare"] = func(fr *frame, args []value) value {
+		i := fr.i
+		a, b := args[0].([]value), args[1].([]value)
+		if i.decide(i.bytesEq(a, b)) {
+			return 0
+		}
+		if i.decide(i.bytesLess(a, b, false)) {
+			return -1
+		}
+		return 1
+	}
+	stubs["internal/bytealg.CompareString"] = func(fr *frame, args []value) value {
+		i := fr.i
+		a, b := strBytes(args[0]), strBytes(args[1])
+		if i.decide(i.bytesEq(a, b)) {
+			return 0
+		}
+		if i.decide(i.bytesLess(a, b, false)) {
+			return -1
+		}
+		return 1
+	}
+	stubs["internal/bytealg.LastIndexByteString"] = func(fr *frame, args []value) value {
+		i := fr.i
+		s := strBytes(args[0])
+		c := i.term(args[1])
+		for k := len(s) - 1; k >= 0; k-- {
+			if i.decide(i.cx.Eq(i.term(s[k]), c)) {
+				return k
+			}
+		}
+		return -1
+	}
+	stubs["internal/bytealg.LastIndexByte"] = func(fr *frame, args []value) value {
+		i := fr.i
+		s := args[0].([]value)
+		c := i.term(args[1])
+		for k := len(s) - 1; k >= 0; k-- {
+			if i.decide(i.cx.Eq(i.term(s[k]), c)) {
+				return k
+			}
+		}
+		return -1
+	}
+}
